@@ -76,16 +76,22 @@ class C14(Prop):
     search_n = 800
     design_ref = "5/C14"
     technique = ("Lean 4 proof (ring invariant, delivered-stream refinement, induction over write / send-result "
-                 "histories) + translator-generated constants + model/implementation correspondence")
+                 "histories, world-level simulation for several users with re-entrant add_message) + translator-generated "
+                 "constants, expressions and control-flow shape ties + model/implementation correspondence")
     level_text = ("Lean 4 theorems about an executable model of the per-user output ring of src/comm.c "
                   "(add_message, add_vmessage, flush_message, the flush points in get_user_command, process_io and "
-                  "remove_interactive) for all message sequences and all scripts of send() results; the model is tied "
-                  "to the source by the regenerated buffer size and by running the real comm.c code (real "
-                  "setup_accepted_connection on a socketpair, real epoll runtime, interposed send()) and the model on "
-                  "the same generated histories; the Lean specification oracle judges every implementation trace")
+                  "remove_interactive) for all message sequences and all scripts of send() results, and about a world of "
+                  "several users (routing, driver passes over all users, snoop links, add_message re-entered from a "
+                  "snooper's receive_snoop that writes, destructs users or raises an error): every user's stream of every "
+                  "world run is proved to be a single-user run and to satisfy the specification oracle; the model is tied "
+                  "to the source by regenerated constants / expressions / 33 statement-shape checks and by running the real "
+                  "comm.c code (real setup_accepted_connection on socketpairs, real epoll runtime, real LPC user objects, "
+                  "interposed send()/write()/close(), every add_message call observed through a guarded hook) and the model "
+                  "on the same generated histories; the Lean specification oracle judges every implementation trace")
     level_note = ("trusted: Lean kernel; extract.py; the correspondence harness (differential, only the generated "
                   "histories); the socket is an oracle script of send() results; write interest is observed at the "
-                  "epoll_ctl() boundary; one user, no input traffic")
+                  "epoll_ctl() boundary; the snooper's LPC behaviour is a script of reactions (echo / tell / destruct / "
+                  "error / nothing), other LPC behaviour is not modelled; no input traffic")
     rule = ("cases = corpus + known-finding inputs + boundary list (messages of N-1/N/N+1/3N bytes, LF arriving at "
             "length N-2/N-1/N, partial sends ending at/before/after the wrap point, all-EWOULDBLOCK, EPIPE mid-write, "
             "EINTR, close/peer close/peer FIN with pending data) + seeded random histories of write/vwrite/sendres/"
@@ -93,19 +99,25 @@ class C14(Prop):
             "LF densities 0..1 and send scripts of partial/W/I/P/E results, half of them started at a random ring "
             "offset, for three kinds of user (PORT_ASCII, PORT_TELNET with its connect negotiation, console user), one to "
             "three users per case with independent send scripts, snoop links (set, replaced, loop refused, cleared by "
-            "close), flush_messages() efun with and without argument, send results given as plain errno numbers; the "
+            "close), scripted receive_snoop reactions of the snooper (echo to itself via receive(), tell_object to any "
+            "user, destruct of any user incl. the one being written to and the snooper itself, error) in half of the "
+            "multi-user cases, flush_messages() efun with and without argument, send results given as plain errno numbers; the "
             "quantifier of the property is covered as: writes of all lengths = 0,1,2,10,100,1000,N-2..N+2,2N,3N+7,random "
             "up to 12400 bytes; send results = full, partial of every size class (1..5, 6..600, around N, up to the ring "
             "end +-2, any), EWOULDBLOCK, EINTR, EPIPE, ECONNRESET; flush points = explicit, per cycle, write-ready, "
             "efun, close, peer close, peer FIN; a case is non-trivial when its trace has >= 2 lines; distinct = distinct canonical "
             "implementation trace")
-    not_covered = ["console reconnect (console_mode option) and the console worker thread; the console user's output path "
-                   "itself (write(2) branch of flush_message, flush at the end of add_message) is modelled and run",
+    not_covered = ["console reconnect (console_mode option: the reconnect prompt is written after CLOSING is set and is "
+                   "therefore never stored - seen by reading, not run) and the console worker thread; the console user's "
+                   "output path itself (write(2) branch of flush_message, flush at the end of add_message) is modelled and run",
                    "telnet negotiation replies written from copy_chars (input driven) interleaved with text: they use the same "
-                   "add_message/flush_message calls, but no C14 case sends input bytes",
-                   "snooper LPC code that itself writes to users (re-entrancy of add_message from receive_snoop)",
-                   "several users: routing, snoop relation and tagging are compared with the implementation, not proved "
-                   "(each user's own stream is a single-user run by construction)",
+                   "add_message/flush_message calls (now visible through the add_message hook), but no C14 case sends input "
+                   "bytes; the input-side snoop forwarding of get_user_data is not run either",
+                   "snooper LPC code other than the scripted reactions (echo / tell / destruct / error); a leak of the "
+                   "formatted string when the snooper raises an error inside add_vmessage is not observed (leak detection off)",
+                   "the lazy creation of users by the case driver happens between world runs; the several-user theorems "
+                   "are stated for world runs (they compose: multi_user_stream_ok re-establishes its hypothesis)",
+                   "MSG_OOB flag (telnet AO) of the first send after an abort-output request",
                    "telnet IAC doubling is not done by the code and not claimed",
                    "builds with FLUSH_OUTPUT_IMMEDIATELY",
                    "Windows IOCP runtime (only the Linux epoll runtime is run)"]
